@@ -32,7 +32,7 @@ TIMEOUT = 900
 
 
 def cases(tier, seed):
-    n, edits = (40, 3) if tier == "quick" else (1500, 5)
+    n, edits = (120, 3) if tier == "quick" else (1500, 5)
     for i in range(n):
         yield {"seed": seed, "idx": i, "edits": edits, "delivery": "cross"}
         yield {"seed": seed, "idx": i, "edits": edits, "delivery": "cell" if i % 2 else "reload"}
@@ -242,7 +242,7 @@ def mechanism(hist, k, name):
         if (d.get("node") in below) or (d.get("var") is not None and any(progs.uses_var(p, j, d["var"]) for j in below)):
             tk = p["nodes"][d["node"]]["kind"] if d.get("node") is not None else "variable"
             return "edit '%s' of a %s" % (d["kind"], {"memento": "memento function", "plain": "plain helper",
-                                                      "wrapped": "decorator-wrapped helper"}.get(tk, tk))
+                                                      "wrapped": "decorator-wrapped helper", "lambda": "module-level lambda"}.get(tk, tk))
     return "no edit beneath it"
 
 
